@@ -68,6 +68,8 @@ pub fn files(thorough: bool) -> Vec<FileVersions> {
 pub struct St {
     /// per file: (current version, last valid version); None = never opened
     pub key: Vec<(Option<u8>, Option<u8>)>,
+    /// per file: document closed (cached text dropped) since its last analysis
+    pub closed: Vec<bool>,
     pub depth: u8,
     /// one history reaching this state (the first one found; not part of the identity)
     pub hist: Vec<(u8, u8)>,
@@ -77,13 +79,14 @@ pub struct St {
 }
 impl PartialEq for St {
     fn eq(&self, o: &Self) -> bool {
-        self.key == o.key && self.depth == o.depth
+        self.key == o.key && self.depth == o.depth && self.closed == o.closed
     }
 }
 impl Eq for St {}
 impl Hash for St {
     fn hash<H: Hasher>(&self, h: &mut H) {
         self.key.hash(h);
+        self.closed.hash(h);
         self.depth.hash(h);
     }
 }
@@ -102,6 +105,8 @@ pub struct HistModel {
     pub transitions: AtomicU64,
     pub oracle_fresh_builds: AtomicU64,
     pub judge: bool,
+    /// also explore didClose (cleanup_file_cache) actions, encoded as version 255
+    pub with_close: bool,
     pub extra: Option<Box<Extra>>,
 }
 
@@ -113,8 +118,8 @@ impl HistModel {
     fn hist_json(&self, hist: &[(u8, u8)]) -> Value {
         json!(hist
             .iter()
-            .map(|(f, v)| json!({"file": self.files[*f as usize].rel, "version": self.files[*f as usize].versions[*v as usize].0,
-                                 "text": self.files[*f as usize].versions[*v as usize].1}))
+            .map(|(f, v)| if *v == 255 { json!({"file": self.files[*f as usize].rel, "version": "CLOSE"}) } else { json!({"file": self.files[*f as usize].rel, "version": self.files[*f as usize].versions[*v as usize].0,
+                                 "text": self.files[*f as usize].versions[*v as usize].1}) })
             .collect::<Vec<_>>())
     }
 
@@ -244,6 +249,7 @@ impl Model for HistModel {
     fn init_states(&self) -> Vec<St> {
         vec![St {
             key: vec![(None, None); self.files.len()],
+            closed: vec![false; self.files.len()],
             depth: 0,
             hist: vec![],
             valid_order: vec![],
@@ -258,11 +264,36 @@ impl Model for HistModel {
             for vi in 0..f.versions.len() {
                 out.push((fi as u8, vi as u8));
             }
+            if self.with_close && s.key[fi].0.is_some() && !s.closed[fi] {
+                out.push((fi as u8, 255));
+            }
         }
     }
     fn next_state(&self, s: &St, a: (u8, u8)) -> Option<St> {
         let (f, v) = a;
         let fv = &self.files[f as usize];
+        if v == 255 {
+            let db = crate::seed::on_fresh_thread(|| {
+                let db = deep_clone(&s.db);
+                db.cleanup_file_cache(&path_of(fv.rel));
+                db
+            });
+            let mut closed = s.closed.clone();
+            closed[f as usize] = true;
+            let mut hist = s.hist.clone();
+            hist.push(a);
+            let ns = St { key: s.key.clone(), closed, depth: s.depth + 1, hist, valid_order: s.valid_order.clone(), db: Arc::new(db) };
+            self.transitions.fetch_add(1, Ordering::Relaxed);
+            if let Some(x) = &self.extra {
+                let invalid: Vec<&str> = ns.key.iter().enumerate()
+                    .filter(|(i, (c, lv))| (c.is_some() && c != lv) || ns.closed[*i])
+                    .map(|(i, _)| self.files[i].rel).collect();
+                let case = json!({"history": self.hist_json(&ns.hist), "invalid_files": invalid});
+                let copy = Arc::new(deep_clone(&ns.db));
+                x(&case, &copy);
+            }
+            return Some(ns);
+        }
         let (_, text, valid) = &fv.versions[v as usize];
         // the real operation on a private copy of the real index
         let db = crate::seed::on_fresh_thread(|| {
@@ -280,7 +311,9 @@ impl Model for HistModel {
         }
         let mut hist = s.hist.clone();
         hist.push(a);
-        let ns = St { key, depth: s.depth + 1, hist, valid_order, db: Arc::new(db) };
+        let mut closed = s.closed.clone();
+        closed[f as usize] = false;
+        let ns = St { key, closed, depth: s.depth + 1, hist, valid_order, db: Arc::new(db) };
         self.transitions.fetch_add(1, Ordering::Relaxed);
         // the oracle queries a private copy: queries warm caches, and caching is C07's subject
         if self.judge {
@@ -295,7 +328,7 @@ impl Model for HistModel {
                 .key
                 .iter()
                 .enumerate()
-                .filter(|(_, (c, lv))| c.is_some() && c != lv)
+                .filter(|(i, (c, lv))| (c.is_some() && c != lv) || ns.closed[*i])
                 .map(|(i, _)| self.files[i].rel)
                 .collect();
             let case = json!({"history": self.hist_json(&ns.hist), "invalid_files": invalid});
@@ -357,6 +390,7 @@ pub fn explore_for(
         transitions: AtomicU64::new(0),
         oracle_fresh_builds: AtomicU64::new(0),
         judge: false,
+        with_close: true,
         extra: Some(Box::new(f)),
     };
     explore(m).0
@@ -372,12 +406,13 @@ pub fn run(rep: &'static Report) {
         transitions: AtomicU64::new(0),
         oracle_fresh_builds: AtomicU64::new(0),
         judge: true,
+        with_close: false,
         extra: None,
     };
     let (v, m) = explore(m);
     // second run (DFS order is not offered with identical counters by stateright for depth-keyed
     // states; instead re-run BFS and require identical unique-state and transition counts)
-    let m2 = HistModel { transitions: AtomicU64::new(0), oracle_fresh_builds: AtomicU64::new(0), judge: false, extra: None, files: files(thorough), max_depth: depth, rep };
+    let m2 = HistModel { transitions: AtomicU64::new(0), oracle_fresh_builds: AtomicU64::new(0), judge: false, with_close: false, extra: None, files: files(thorough), max_depth: depth, rep };
     let (v2, _) = explore(m2);
     if v["unique_states"] != v2["unique_states"] || v["transitions"] != v2["transitions"] {
         rep.machinery_error(&format!("state/transition counts differ between two explorations: {} vs {}", v, v2));
@@ -401,6 +436,11 @@ pub fn replay(v: &Value) {
     let hist = v["case"]["history"].as_array().cloned().unwrap_or_default();
     let db = FixtureDatabase::new();
     for h in &hist {
+        if h["version"] == "CLOSE" {
+            println!("cleanup_file_cache({})", h["file"]);
+            db.cleanup_file_cache(&path_of(h["file"].as_str().unwrap()));
+            continue;
+        }
         println!("analyze_file({}, version `{}`)", h["file"], h["version"]);
         db.analyze_file(path_of(h["file"].as_str().unwrap()), h["text"].as_str().unwrap());
     }
